@@ -95,6 +95,10 @@ inline Out ref_apply(RModel& m, const VOp& op, Info& inf) {
         break;
     case K_SPLIT:
         if (!m.valid(op.a) || !m.isText(op.a) || op.b > m.len(op.a)) return skip();
+        // a Range whose root container is a parentless Text node is outside DOM Range 2.2; splitting that node cannot keep both
+        // boundary points under one root -> not executed
+        if (m.par(op.a) < 0)
+            for (auto& w : m.v) if (w.kind == V_RANGE && !w.detached && (w.sc == op.a || w.ec == op.a)) return skip();
         inf.ret = m.splitText(op.a, op.b);
         out.val = "new";
         break;
@@ -305,12 +309,56 @@ inline Out ref_apply(RModel& m, const VOp& op, Info& inf) {
 
 // ---------------------------------------------------------------------- the alphabet enabled in a state
 struct Alpha {
+    int profile = 0;   // 0 = full alphabet, 1 = reduced alphabet, 2 = medium: full view alphabet, reduced mutation operands
     int maxViews = 1;
     bool attrOpsAlways = false;
     int maxCreated = 1;
 };
 
+// reduced alphabet: a fixed subset of the full one (every view operation kept, operands restricted)
+inline bool keep_reduced(const RModel& m, const VOp& o) {
+    auto in = [](int x, std::initializer_list<int> l) { for (int y : l) if (x == y) return true; return false; };
+    switch (o.c) {
+    case K_MK_NI: case K_MK_TW:
+        return (o.a == 1 && o.b == 0 && o.d == 0) || (o.a == 1 && o.b == 2 && o.d == 2) || (o.a == 0 && o.b == 1 && o.d == 1) || (o.a == 1 && o.b == 0 && o.d == 1);
+    case K_MK_TAG: return o.a == 0;
+    case K_MK_KIDS: return true;
+    case K_MK_ATTRS: case K_MK_ID: case K_MK_XP: return false;
+    case K_MK_RANGE: return in(o.a, {0, 1, 3, 5});
+    case K_APPEND: return in(o.b, {6, 2, 4}) && in(o.a, {1, 5, 2});
+    case K_INSERT: return o.a == 1 && in(o.b, {6, 7, 5}) && o.d == m.firstKid(1);
+    case K_REMOVE: return true;
+    case K_REPLACE: return in(o.a, {6, 7}) && in(o.b, {2, 4});
+    case K_NORMALIZE: return o.a == 1;
+    case K_INSDATA: return o.a == 3 && o.b == 1;
+    case K_DELDATA: return o.a == 3 && o.b == 1 && o.d == 2;
+    case K_REPDATA: return o.a == 3 && o.b == 1 && o.d == 1;
+    case K_SPLIT: return (o.a == 3 && o.b == 2) || (o.a == 4 && o.b == 1);
+    case K_SETVAL: return o.a == 3;
+    case K_SETATTR: case K_RMATTR: case K_SETIDATTR: case K_MKEL: case K_MKTEXT: return false;
+    case K_TW_SETCUR: return in(o.b, {2, 3, 4, 5});
+    case K_R_SETSTART: case K_R_SETEND: return in(o.b, {1, 2, 3}) && o.d <= m.len(o.b);
+    case K_R_SELNODE: case K_R_SELCONT: return in(o.b, {2, 3, 4});
+    case K_R_INSERT: return in(o.b, {6, 7});
+    case K_R_SURROUND: return o.b == 6;
+    default: return true;
+    }
+}
+
+inline std::vector<VOp> enabled_ops_full(const RModel& m, const Alpha& A);
 inline std::vector<VOp> enabled_ops(const RModel& m, const Alpha& A) {
+    std::vector<VOp> all = enabled_ops_full(m, A);
+    if (A.profile == 0) return all;
+    std::vector<VOp> r;
+    for (auto& o : all) {
+        bool mutation = o.c >= K_APPEND && o.c <= K_MKTEXT;
+        if (A.profile == 2 && !mutation) { r.push_back(o); continue; }   // "medium": only the mutation operands are reduced
+        if (A.profile == 2 && (o.c == K_SETATTR || o.c == K_RMATTR || o.c == K_SETIDATTR)) { r.push_back(o); continue; }
+        if (keep_reduced(m, o)) r.push_back(o);
+    }
+    return r;
+}
+inline std::vector<VOp> enabled_ops_full(const RModel& m, const Alpha& A) {
     std::vector<VOp> r;
     auto add = [&](int c, int a = 0, int b = 0, int d = 0, int e = 0) { VOp o; o.c = c; o.a = a; o.b = b; o.d = d; o.e = e; r.push_back(o); };
     std::vector<int> alive, elems, texts;
